@@ -18,6 +18,7 @@ import Golib.Proof.C04Client
 import Golib.Proof.C04Overflow
 import Golib.Proof.C04Cmp
 import Golib.Proof.C04Trans
+import Golib.Proof.C04TransSlice
 
 namespace Golib.C04
 
@@ -616,5 +617,87 @@ example :
     Golib.Gen.Trans.C04.up [3, 5, 1] (fun a b => decide (a < b)) Golib.Gen.Trans.C04.swap 3 = .panic ∧
     Golib.Gen.Trans.C04.up [3, 5, 1] (fun a b => decide (a < b)) (cbSwap fun _ _ _ => none) 2 = .panic := by
   refine ⟨?_, ?_, ?_, ?_, ?_⟩ <;> decide +kernel
+
+/-! ### Wave 9: the methods of `heapz/slice.go` regenerated from source
+
+`Golib.Gen.Trans.C04.Slice` is the Go struct (`Values []T`, `cmp func(T, T) bool`; the callback FIELD is
+ASSUMED pure and total like a callback parameter), the pointer receiver is passed as state, the
+call `up(s.Values, s.cmp, swap[T], …)` hands the receiver's field to the regenerated sift routine
+and the regenerated `swap` as the callback.  The ties say: on `T = int` each method IS the client
+model `Slice.*` the sequence theorems (`c04_slice_*`, `c04_slice_sequences`, `c04_popall_sorted`)
+are about — same result, same final `Values`, `cmp` untouched, panic exactly where the model
+panics, never out of fuel.  `FromSlice`/`NewSlice` stay outside the subset (the struct field aliases
+the caller's slice argument), as do `std_heap.go` (interface parameter) and `heap.go`
+(`[]*Element[T]` with owner back-pointers). -/
+
+/-- The regenerated `(*Slice[int]).Push` IS `Slice.push`. -/
+theorem c04_trans_Slice_Push (s : Golib.Gen.Trans.C04.Slice Int) (x : Int) :
+    Golib.Gen.Trans.C04.Slice_Push s x
+      = optRes (fun v => ({ s with Values := v } : Golib.Gen.Trans.C04.Slice Int))
+          (Slice.push s.cmp s.Values x) :=
+  trans_Slice_Push_eq s x
+
+/-- The regenerated `(*Slice[int]).Pop` IS `Slice.pop` (`popOut`: results `(x, ok)` first, then the receiver). -/
+theorem c04_trans_Slice_Pop (s : Golib.Gen.Trans.C04.Slice Int) :
+    Golib.Gen.Trans.C04.Slice_Pop s = optRes (popOut s) (Slice.pop s.cmp s.Values) :=
+  trans_Slice_Pop_eq s
+
+/-- The regenerated `(*Slice[int]).Peek` IS `Slice.peek`. -/
+theorem c04_trans_Slice_Peek (s : Golib.Gen.Trans.C04.Slice Int) :
+    Golib.Gen.Trans.C04.Slice_Peek s = optRes id (Slice.peek s.Values) :=
+  trans_Slice_Peek_eq s
+
+/-- The regenerated `(*Slice[int]).Len` is the length of `Values`. -/
+theorem c04_trans_Slice_Len (s : Golib.Gen.Trans.C04.Slice Int) :
+    Golib.Gen.Trans.C04.Slice_Len s = .ok (s.Values.length : Int) :=
+  trans_Slice_Len_eq s
+
+/-- The regenerated `(*Slice[int]).Remove` IS `Slice.remove`, at every index. -/
+theorem c04_trans_Slice_Remove (s : Golib.Gen.Trans.C04.Slice Int) (i : Int) :
+    Golib.Gen.Trans.C04.Slice_Remove s i = optRes (popOut s) (Slice.remove s.cmp s.Values i) :=
+  trans_Slice_Remove_eq s i
+
+/-- The regenerated `(*Slice[int]).Fix` IS `Slice.fix`, at every index. -/
+theorem c04_trans_Slice_Fix (s : Golib.Gen.Trans.C04.Slice Int) (i : Int) :
+    Golib.Gen.Trans.C04.Slice_Fix s i
+      = optRes (fun v => ({ s with Values := v } : Golib.Gen.Trans.C04.Slice Int))
+          (Slice.fix s.cmp s.Values i) :=
+  trans_Slice_Fix_eq s i
+
+/-- `c04_slice_push` and `c04_slice_pop` directly on the generated methods: on a heap-ordered
+`Values`, `Push` does not panic, keeps the heap order and adds exactly `x`; `Pop` on a non-empty
+heap removes exactly one element that no element precedes and keeps the heap order; on an empty
+heap it returns `(0, false)` and leaves the receiver alone. -/
+theorem c04_trans_Slice_push_pop (s : Golib.Gen.Trans.C04.Slice Int) (hs : SWO s.cmp)
+    (h : Heap s.cmp s.Values) :
+    (∀ x, ∃ v, Golib.Gen.Trans.C04.Slice_Push s x = .ok { s with Values := v } ∧
+      Heap s.cmp v ∧ v.Perm (x :: s.Values)) ∧
+    (s.Values = [] → Golib.Gen.Trans.C04.Slice_Pop s = .ok ((0, false), s)) ∧
+    (s.Values ≠ [] → ∃ v x, Golib.Gen.Trans.C04.Slice_Pop s = .ok ((x, true), { s with Values := v }) ∧
+      Heap s.cmp v ∧ (x :: v).Perm s.Values ∧ ∀ y ∈ s.Values, s.cmp y x = false) := by
+  refine ⟨fun x => ?_, fun he => ?_, fun hne => ?_⟩
+  · obtain ⟨v, h1, h2⟩ := c04_slice_push hs s.Values x h
+    exact ⟨v, by rw [c04_trans_Slice_Push, h1]; rfl, h2⟩
+  · rw [c04_trans_Slice_Pop, (c04_slice_pop hs s.Values h).1 he]
+    show GoSem.Res.ok ((0, false), ({ s with Values := [] } : Golib.Gen.Trans.C04.Slice Int)) = _
+    rw [← he]
+  · obtain ⟨v, x, h1, h2⟩ := (c04_slice_pop hs s.Values h).2 hne
+    exact ⟨v, x, by rw [c04_trans_Slice_Pop, h1]; rfl, h2⟩
+
+/-- Non-vacuity: the generated methods run on a concrete heap with `<`: `Push 0` sifts to the root,
+`Pop` returns the minimum, `Remove` out of range is a no-op with `(0, false)`, `Remove(1)` takes
+`Values[1]`, `Fix` after the root was overwritten restores the order, `Peek` on empty is `(0, false)`. -/
+example :
+    valsOf (Golib.Gen.Trans.C04.Slice_Push ⟨[1, 3, 5], fun a b => decide (a < b)⟩ 0) = .ok [0, 1, 5, 3] ∧
+    popValsOf (Golib.Gen.Trans.C04.Slice_Pop ⟨[1, 3, 5, 7], fun a b => decide (a < b)⟩)
+      = .ok ((1, true), [3, 7, 5]) ∧
+    popValsOf (Golib.Gen.Trans.C04.Slice_Remove ⟨[1, 3, 5, 7], fun a b => decide (a < b)⟩ 4)
+      = .ok ((0, false), [1, 3, 5, 7]) ∧
+    popValsOf (Golib.Gen.Trans.C04.Slice_Remove ⟨[1, 3, 5, 7], fun a b => decide (a < b)⟩ 1)
+      = .ok ((3, true), [1, 7, 5]) ∧
+    valsOf (Golib.Gen.Trans.C04.Slice_Fix ⟨[9, 3, 5, 7], fun a b => decide (a < b)⟩ 0) = .ok [3, 7, 5, 9] ∧
+    Golib.Gen.Trans.C04.Slice_Peek ⟨([] : List Int), fun a b => decide (a < b)⟩ = .ok (0, false) ∧
+    Golib.Gen.Trans.C04.Slice_Len ⟨[4, 5], fun a b => decide (a < b)⟩ = .ok 2 := by
+  refine ⟨?_, ?_, ?_, ?_, ?_, ?_, ?_⟩ <;> decide +kernel
 
 end Golib.C04
